@@ -130,6 +130,8 @@ package binary
 //@   refines model.VectorOperator.Next
 //@   requires ctx != nil && o != nil && o.next != nil && o.scalar != nil && o.pool != nil && !isnil(o.getOperands) && !isnil(o.operation)
 //@   panics may
+//@   ensures[C15] child-error-surfaces: ncalls("model.VectorOperator.Next") >= 1 && callres("model.VectorOperator.Next", 1, 1) != nil ==> result1 != nil
+//@   ensures[C15] second-child-error-surfaces: ncalls("model.VectorOperator.Next") >= 2 && callres("model.VectorOperator.Next", 2, 1) != nil ==> result1 != nil
 //@   ensures[C18] error-means-no-batch: result1 != nil ==> isnil(result0)
 //@   ensures[C05,C07,C18] one-output-vector-per-input-vector: result1 == nil && !isnil(result0) ==> len(result0) == len(callres("model.VectorOperator.Next", 1, 0)) &&
 //@       (forall k in 0..len(result0) :: result0[k].T == callres("model.VectorOperator.Next", 1, 0)[k].T)
